@@ -18,7 +18,9 @@ Differentiability of neural conditioners is a hypothesis (ReLU kinks are a null 
 
 **Limits of what is proved** (external audit): the everywhere-differentiability hypothesis on the row map through a conditioner
 (`ARRowHyp.hdiff`, `CouplingRowHyp.hdiff` in `Properties/C03ND.lean`) is satisfied by smooth conditioners only and is discharged
-in this tree for constant / affine conditioners — NOT for the library's default ReLU networks, for which an almost-everywhere
+in this tree for constant / affine conditioners and (`C03ND`: `maf_layer_differentiable`, `executed_pipeline_with_maf_is_normalised`) for
+the masked affine autoregressive layer with a smooth-activation MADE and for additive / affine coupling with a smooth perceptron — NOT
+for the library's default ReLU networks, for which an almost-everywhere
 (cell-wise) change of variables would be needed and is not proved; the conditioner-free layers (CDF transforms, permutations,
 LU / QR / SVD) and the 1-D flows have no such hypothesis.  All normalisation theorems are for bijections of the whole line / ℝⁿ
 with a Gaussian base: no theorem for a flow on a box (bounded splines, `Sigmoid` onto `(0,1)` with a uniform base), for a
